@@ -45,6 +45,37 @@ def find_comp(t):
     return None
 
 
+def producer_facts(cx, dinit):
+    """(generators outer->inner as (var, iterable), element term, line) of the cell-position producer in
+    DiscreteWorld.__init__, whether it is written as a comprehension or as nested loops with an append."""
+    for p in cx.walker.paths(dinit, WalkOptions(unroll=1, callee_raises=False)):
+        if p.end == 'raise':
+            continue
+        for e in p.events:
+            if e.kind == 'store' and e.data.get('attr') == 'cells':
+                P = find_comp(e.data.get('value'))
+                if isinstance(P, Fresh) and P.kind == 'listcomp' and isinstance(P.detail, CompInfo):
+                    return [(t, it) for t, it, c in P.detail.gens], P.detail.elt, e.line, any(c for _, _, c in P.detail.gens)
+                if isinstance(P, Fresh) and P.kind in ('list', 'call:list') and not P.items:
+                    apps = [a for a in p.events if a.kind == 'store' and a.data.get('store') == 'append'
+                            and strip_versions(a.data.get('target')) == P]
+                    if len(apps) == 1 and apps[0].loops:
+                        a = apps[0]
+                        gens = []
+                        conds = False
+                        for lid in a.loops:
+                            its = [x for x in p.events if x.kind == 'iter' and x.node.lineno == lid]
+                            lps = [x for x in p.events if x.kind == 'loop' and x.node.lineno == lid]
+                            if not its or not lps:
+                                return None
+                            info = its[0].data['info']
+                            gens.append((info.get('index') or info.get('var'), lps[0].data.get('iter')))
+                        i0 = p.events.index([x for x in p.events if x.kind == 'iter' and x.node.lineno == a.loops[0]][0])
+                        conds = any(x.kind == 'cond' for x in p.events[i0:p.events.index(a)])
+                        return gens, a.data.get('args', (None,))[0], a.line, conds
+    return None
+
+
 def check_id_poly(cx, fn, idterm, self_s, x, y, z, where, construct, what):
     """idterm must equal x + y*N_x + z*N_x*N_y in every extent case."""
     want = expected_id(self_s, x, y, z)
@@ -112,33 +143,24 @@ def run(cx: Cx):
             cx.ok('R-FWD', f"{cq.split('.')[-1]} forwards its extents and constant zeros", where=cx.where(ctor, ev.line), function=ctor.qualname)
 
     # ------------------------------------------------------------ clause 1: producer facts
-    comp = None
-    for p in cx.walker.paths(dinit, WalkOptions(unroll=0, callee_raises=False)):
-        if p.end == 'raise':
-            continue
-        for e in p.events:
-            if e.kind == 'store' and e.data.get('attr') == 'cells':
-                comp = find_comp(e.data.get('value'))
-                comp_line = e.line
+    pf = producer_facts(cx, dinit)
+    comp = pf
     prod_ok = False
-    if not (isinstance(comp, Fresh) and comp.kind == 'listcomp' and isinstance(comp.detail, CompInfo)):
-        cx.inconclusive('R-AGREE', 'cell table producer', "the 'pos' column is not built by a list comprehension in "
-                        "DiscreteWorld.__init__", where=cx.where(dinit), function=dinit.qualname)
+    if pf is None:
+        cx.inconclusive('R-AGREE', 'cell table producer', "the 'pos' column is built neither by a list comprehension nor by nested "
+                        "loops with one append in DiscreteWorld.__init__", where=cx.where(dinit), function=dinit.qualname)
     else:
-        d = comp.detail
+        gens, elt, comp_line, has_conds = pf
         where = cx.where(dinit, comp_line)
-        elt = d.elt
-        gens = d.gens
         facts = []
         if isinstance(elt, TupleT) and len(elt.items) == 3 and len(gens) == 3:
-            # generators outer -> inner; axis = index of the generator's variable in the element tuple
             axes_of = []
-            for tgt, it, conds in gens:
+            for tgt, it in gens:
                 idx = [i for i, x in enumerate(elt.items) if x == tgt]
                 axes_of.append(idx[0] if len(idx) == 1 else None)
-            if axes_of == [2, 1, 0] and not any(c for _, _, c in gens):
+            if axes_of == [2, 1, 0] and not has_conds:
                 prod_ok = True
-                for (tgt, it, conds), (ax, ext, i) in zip(gens, reversed(AXES)):
+                for (tgt, it), (ax, ext, i) in zip(gens, reversed(AXES)):
                     n = None
                     if isinstance(it, App) and it.fn == 'range':
                         if len(it.args) == 1:
@@ -165,14 +187,11 @@ def run(cx: Cx):
     cx.floor('producer comprehension found', 1 if comp is not None else 0, 1)
 
     # ------------------------------------------------------------ public formula
-    ex = _Ctx(cx.walker, idf, WalkOptions())
-    body = idf.body
-    if len(body) == 1 and isinstance(body[0], ast.Return):
-        st0 = State()
-        for pn in idf.params:
-            st0.env[pn] = Sym(pn)
-        t = ex.ev(body[0].value, st0)
-        X, Y, Z, W, H = (Sym(n) for n in ('x', 'y', 'z', 'width', 'height'))
+    ex = _Ctx(cx.walker, dinit, WalkOptions())
+    X, Y, Z, W, H = (Sym(n) for n in ('x', 'y', 'z', 'width', 'height'))
+    t = ex.inline_call(idf, None, [], {'x': X, 'y': Y, 'z': Z, 'width': W, 'height': H}, State(), None) \
+        if all(q in idf.params for q in ('x', 'y', 'z', 'width', 'height')) else None
+    if t is not None:
         want = add(add(X, mul(Y, W)), mul(Z, mul(W, H)))
         if t == want:
             cx.ok('R-AGREE', 'discrete_grid_pos_to_id == z*width*height + y*width + x', where=cx.where(idf), function=idf.qualname)
@@ -180,7 +199,8 @@ def run(cx: Cx):
             cx.violation('R-AGREE', idf.qualname, 'documented-id-formula',
                          f"discrete_grid_pos_to_id returns {t!r}, not z*width*height + y*width + x", where=cx.where(idf))
     else:
-        cx.inconclusive('R-AGREE', 'discrete_grid_pos_to_id', 'not a single return expression', where=cx.where(idf), function=idf.qualname)
+        cx.inconclusive('R-AGREE', 'discrete_grid_pos_to_id', 'not a straight-line expression of (x, y, width, z, height)', where=cx.where(idf),
+                        function=idf.qualname)
 
     # ------------------------------------------------------------ clause 2 + 3 + 4: get_cell
     gs = Sym(get_cell.params[0])
@@ -224,7 +244,7 @@ def run(cx: Cx):
 
     # every in-package call site of the id function (the two if_int helpers are C10's; listed here for the floor)
     callers = cx.effects.callers_of(idf)
-    cx.floor('in-package call sites of discrete_grid_pos_to_id', len([c for c in callers if 'discreteGridPosToID' not in c[0]]), 3)
+    cx.floor('in-package call sites of discrete_grid_pos_to_id', len([c for c in callers if 'discreteGridPosToID' not in c[0]]), 1)
 
     # id -> coordinates
     gp = cx.fn(DW + '._get_cell_pos_as_tuple')
